@@ -158,7 +158,8 @@ class MinErrorFlow():
             utils.logger.error(f"{__name__}: weight_type must be either int or float, not {weight_type}")
             raise ValueError(f"weight_type must be either int or float, not {weight_type}")
         self.weight_type = weight_type
-        self.solver_options = solver_options
+        # None stands for the default (no option given), as in the k-models
+        self.solver_options = solver_options if solver_options is not None else {}
 
         # Checking that every entry in self.edge_error_scaling is between 0 and 1
         for key, value in self.edge_error_scaling.items():
